@@ -1633,9 +1633,8 @@ func (ls *LState) GetStack(level int) (*Debug, bool) {
 
 	if level == 0 && frame != nil {
 		return &Debug{frame: frame}, true
-	} else if level < 0 && ls.stack.Sp() > 0 {
-		return &Debug{frame: ls.stack.At(0)}, true
 	}
+	// a negative level falls among frames that tail calls have replaced: nothing is known about them
 	return &Debug{}, false
 }
 
